@@ -25,7 +25,10 @@ CFG = {
     "enum_always": ("del_space", "del_cells", "remove_bases", "del_ref", "del_mref"),
     "weights": {"new_space": 2.0, "del_space": 2.0, "new_cells": 3.0, "set_formula": 1.0, "del_cells": 3.0,
                 "rename_cells": 0.3, "add_bases": 2.0, "remove_bases": 2.5, "set_ref": 1.5, "del_ref": 1.5,
-                "set_mref": 0.3, "eval": 3.0, "evalall": 0.6, "bad": 0.3, "set_cached": 0.6},
+                "set_mref": 0.3, "eval": 3.0, "evalall": 0.6, "bad": 0.3, "set_cached": 0.6,
+                # the SESSION's handle (mx.cur_space / model.cur_space / parent.cur_space) set to some space, mostly a
+                # nested one, and API use through it (new_cells through cur_space(), mx.defcells)
+                "cur_space": 1.2, "cur_cells": 1.2},
     # a reference that holds a cells or a space is a handle the MODEL keeps: a quarter of the references created
     "obj_refs": 0.25,
     # deletion must be complete whatever the caching mode of the deleted cells and of its readers
@@ -186,6 +189,7 @@ class H(S.Hooks):
                         out.fail("%s.%s is a derived member although no base defines it any more (after %s)" % (
                             p, n, op[0]), hist)
         alive_impls = set()
+        self.check_session_handle(live, op, result, out, hist, stats)
 
         def add_tree(impl):
             alive_impls.add(id(impl))
@@ -242,6 +246,35 @@ class H(S.Hooks):
             out.fail("the dependency graph still has a node of a deleted object (%r)" % (node[0].name,), hist,
                      key=KNOWN_SPACE if self.uncached_in_deleted_space and only_keyless_uncached else
                      "C13-deleted-object-in-formula-globals" if self.objrefs else None)
+
+    def check_session_handle(self, live, op, result, out, hist, stats):
+        """the model's current space is a handle the SESSION holds (set by new_space, mx.cur_space, model.cur_space,
+        parent.cur_space; used by mx.defcells and by everything that goes through cur_space()): after any operation it
+        is None or a space that is in the model, and API use through it acts on a space that is in the model or raises
+        the deleted-object error"""
+        m = live.m
+        with quiet():
+            cur = m.cur_space()
+        if cur is not None:
+            stats["session_handle_checks"] += 1
+            found = None
+            try:
+                found = resolve(m, W.rel(m, cur), "space", None) if cur._is_valid() else None
+            except Exception:   # noqa
+                found = None
+            if found is not cur:
+                self.nontrivial = True
+                out.fail("after %s the model's current space (what mx.cur_space() / model.cur_space() hand out and "
+                         "mx.defcells acts on) is a space that is not in the model any more" % op[0], hist)
+        if op[0] == "cur_cells":
+            stats["session_handle_uses:" + result.split(" ")[0] + (result[3:] if result.startswith("err") else "")] += 1
+            if result.startswith("err") and result not in ("err Deleted", "err Value"):
+                out.fail("API use through the current space (%s) raised %s: neither the deleted-object error nor an "
+                         "ordinary refusal" % (op[3] if len(op) > 3 else "new_cells", result[4:]), hist)
+            elif result.startswith("ok ") and result != "ok none":
+                path = result[3:].rsplit(".", 1)[0]
+                if resolve(m, path, "space", None) is None:
+                    out.fail("API use through the current space created %s, which is not in the model" % result[3:], hist)
 
     def end(self, live, ops, out, stats):
         mine = S.eval_everything(live)
@@ -469,10 +502,228 @@ def run_dynamic(ctx, out, stats, per_motif=8):
                 return
 
 
+# ----------------------------------------------------------------------------- ItemSpaces held by references
+#
+# A reference may HOLD an ItemSpace (`T.r = S[1]`, `T.rc = S[1].Ch`): the model keeps a handle.  Cached cells elsewhere read
+# through it - the ARGUMENTS of the ItemSpace (`r.k`), the references its parameter formula returned (`r.z`), the
+# references of its base seen through it (`r.w`), its cells (`r.foo(1)`), its child space, or take it as an ARGUMENT
+# (`take(r)`).  No reader evaluates `S[i]` itself, so whether the ItemSpace exists is a function of the edits alone.
+# Every edit discards it (a cells of its base created / redefined / deleted, what the parameter formula read changed,
+# the parameter formula changed, a reference of the base changed, clear_items, del S[i], clear_all) or rebinds the
+# reference; the space itself may be deleted.  Oracle (the shape props/c09.py `item_handles` uses for flags):
+#   * right after an edit that killed what the handle denotes, no reader holds a value ("no held value computed from
+#     the deleted object remains anywhere");
+#   * at the end the readers return what they return in a model to which only the edits were applied.
+# Known finding (KNOWN_BASEREF): a reference of the BASE read through the handle - recognised only for readers of
+# that kind.
+
+KNOWN_BASEREF = "C13-itemspace-base-ref-read-through-handle"
+
+HELD_READERS = {      # name -> (kind, source)
+    "c_arg": ("arg", "def c_arg(): return r.k"),
+    "c_arg2": ("arg", "def c_arg2(): return r.k * 10 + r.n"),
+    "c_fref": ("fref", "def c_fref(): return r.z"),
+    "c_bref": ("bref", "def c_bref(): return r.w"),
+    "c_cells": ("cells", "def c_cells(): return r.foo(1)"),
+    "c_items": ("arg", "def c_items(): return r._space.k + 1000"),
+    "c_take": ("arg", "def c_take(sp): return sp.k * 2"),
+    "c_passed": ("arg", "def c_passed(): return c_take(r) + 1"),
+    "c_child_arg": ("arg", "def c_child_arg(): return rc.k"),
+    "c_child_ref": ("bref", "def c_child_ref(): return rc.v"),
+    "c_child_cells": ("cells", "def c_child_cells(): return rc.g(2)"),
+}
+HELD_EDITS = ["formula_x", "ref_p", "ref_w", "clear_items", "del_item", "pformula", "new_cells", "del_cells", "foo_formula",
+              "clear_all", "rebind", "child_ref"]
+
+
+def run_held(h, evaluate_between):
+    """-> (observations at the queries, problems seen right after the edits)"""
+    from ..impl import err_kind
+    close_all()
+    obs, problems = [], []
+    item = h.get("item", 1)
+    try:
+        with quiet():
+            m = mx.new_model("H")
+            A = m.new_space("A")
+            A.new_cells("x", formula="def x(): return 1")
+            S = m.new_space("S", formula="def _f(k, n=3): return {'refs': {'z': A.x() * 100 + k + p}}")
+            S.A, S.w, S.p = A, 7, 0
+            S.new_cells("foo", formula="def foo(t): return z + t + w")
+            Ch = S.new_space("Ch")
+            Ch.v = 5
+            Ch.new_cells("g", formula="def g(t): return v * t + k")
+            T = m.new_space("T")
+            T.r = S[item]
+            T.rc = S[item].Ch
+            for n in h["readers"]:
+                T.new_cells(n, formula=HELD_READERS[n][1])
+            readers = [n for n in h["readers"] if n != "c_take"]
+            nextra = 0
+
+            def query():
+                one = {}
+                for n in readers:
+                    try:
+                        one[n] = T.cells[n]()
+                    except BaseException as e:      # noqa: BLE001
+                        one[n] = "err " + err_kind(mx.get_error() if type(e).__name__ == "FormulaError" else e)
+                return one
+            for i, st in enumerate(h["steps"]):
+                k = st[0]
+                if k == "query":
+                    if evaluate_between or i == len(h["steps"]) - 1:
+                        obs.append(query())
+                    continue
+                held = (T.r, T.rc)
+                if k == "formula_x":
+                    A.x.formula = "def x(): return %d" % st[1]
+                elif k == "ref_p":
+                    S.p = st[1]
+                elif k == "ref_w":
+                    S.w = st[1]
+                elif k == "child_ref":
+                    Ch.v = st[1]
+                elif k == "clear_items":
+                    S.clear_items()
+                elif k == "clear_all":
+                    S.clear_all()
+                elif k == "del_item":
+                    if (item, 3) in S._impl.param_spaces:
+                        del S[item, 3]
+                elif k == "pformula":
+                    S.formula = "def _f(k, n=3): return {'refs': {'z': A.x() * 100 + k + p + %d}}" % st[1]
+                elif k == "new_cells":
+                    nextra += 1
+                    S.new_cells("extra%d" % nextra, formula="lambda: 0")
+                elif k == "del_cells":
+                    if nextra:
+                        del S.cells["extra%d" % nextra]
+                        nextra -= 1
+                elif k == "foo_formula":
+                    S.foo.formula = "def foo(t): return z + t + w + %d" % st[1]
+                elif k == "rebind":
+                    T.r = S[item]
+                    T.rc = S[item].Ch
+                elif k == "del_space":
+                    del m.S
+                if evaluate_between:
+                    # what was computed through a handle that died with this edit must be gone NOW
+                    for hd, names in ((held[0], ("r.", "(r)")), (held[1], ("rc.",))):
+                        if hd._is_valid():
+                            continue
+                        for n in readers:
+                            if any(t in HELD_READERS[n][1] for t in names) and len(T.cells[n]._impl.data):
+                                problems.append((i, n))
+    finally:
+        close_all()
+    return obs, problems
+
+
+def check_held(h, out, stats):
+    stats["held_item_histories"] += 1
+    live, problems = run_held(h, True)
+    only, _ = run_held(h, False)
+    found = []      # (key, what, history): an instance of the known finding never hides another reader's failure
+    for i, n in problems:
+        found.append((KNOWN_BASEREF if HELD_READERS[n][0] == "bref" else None,
+                      "T.%s (%s) still holds the value it computed through a reference holding an ItemSpace, right after %s "
+                      "discarded that ItemSpace" % (n, HELD_READERS[n][1].split(": ", 1)[1], h["steps"][i][0]),
+                      dict(h, steps=h["steps"][:i + 1] + [["query"]])))
+    a, b = live[-1], only[-1]
+    for n in sorted(a):
+        if a[n] != b[n]:
+            found.append((KNOWN_BASEREF if HELD_READERS[n][0] == "bref" else None,
+                          "T.%s (%s) returns %r after evaluations between the edits and %r in a model to which only the "
+                          "edits were applied (the ItemSpace the reference held was discarded)" % (
+                              n, HELD_READERS[n][1].split(": ", 1)[1], a[n], b[n]), h))
+    unkeyed = [f for f in found if f[0] is None]
+    for key, what, hist in unkeyed[:2] or found[:1]:
+        out.fail(what, hist, key=key)
+    stats["held_item_known_instances"] += bool(found) and not unkeyed
+    return not unkeyed
+
+
+def gen_held(rng):
+    names = sorted(HELD_READERS)
+    readers = sorted(set(rng.sample(names, rng.randint(3, 6)) + ["c_take"]))
+    steps = [["query"]]
+    for _ in range(rng.randint(1, 4)):
+        k = rng.choice(HELD_EDITS)
+        steps.append([k, rng.randint(2, 9)] if k in ("formula_x", "ref_p", "ref_w", "pformula", "foo_formula", "child_ref") else [k])
+        steps.append(["query"])
+    if rng.random() < 0.15:
+        steps += [["del_space"], ["query"]]
+    return {"scenario": "held-items", "item": rng.choice([1, 1, 2]), "readers": readers, "steps": steps}
+
+
+def held_items(ctx, out, stats):
+    allr = sorted(HELD_READERS)
+    hists = [{"scenario": "held-items", "item": 1, "readers": allr,
+              "steps": [["query"], [k, 4] if k in ("formula_x", "ref_p", "ref_w", "pformula", "foo_formula", "child_ref") else [k], ["query"]]}
+             for k in HELD_EDITS + ["del_space"]]
+    hists += [gen_held(ctx.rng("held-items", i)) for i in range(ctx.n(30, 600))]
+    bad = 0
+    for h in hists:
+        if not check_held(h, out, stats):
+            bad += 1
+            if len([f for f in out.failures if not f.get("key")]) >= 3:
+                break
+    return len(hists)
+
+
+def session_family():
+    """[(label, ops)]: the session's handle set to the space that is then deleted, to a child, to a grandchild of it
+    (by mx.cur_space(obj), by <parent>.cur_space(name), or left where new_space put it), the deletion at the top / in
+    the middle of the tree, then API use through the handle (new_cells through mx.cur_space() / model.cur_space(),
+    mx.defcells) and a new space"""
+    out = []
+    tree = [["new_space", "-", "A", []], ["new_space", "A", "X", []], ["new_space", "A.X", "Y", []],
+            ["new_cells", "A.X.Y", "f", F(0, 1)], ["new_space", "-", "B", []], ["new_cells", "B", "g", F(0, 2)]]
+    for victim in ("A", "A.X", "A.X.Y", "B"):
+        for how in ("mx", "parent", "new_space"):
+            for deleted in ("A", "A.X"):
+                for use in ("new_cells", "model", "defcells"):
+                    if how == "new_space":
+                        if victim == "B":
+                            continue
+                        # the handle is where the creation of the space left it
+                        pre = [o for o in tree if not (o[0] == "new_space" and (o[2] if o[1] == "-" else o[1] + "." + o[2]) == victim)]
+                        pre = pre[:1] + [o for o in pre[1:] if o[0] != "new_cells"] if victim == "A" else pre
+                        mk = ["new_space", "-" if "." not in victim else victim.rsplit(".", 1)[0], victim.rsplit(".", 1)[-1], []]
+                        if victim != "A.X.Y":
+                            continue        # creating A or A.X last would leave nothing below it: covered by mx / parent
+                        ops = [o for o in pre if o[0] == "new_space"] + [mk]
+                    else:
+                        ops = [list(o) for o in tree] + [["cur_space", victim, how]]
+                    ops = ops + [["eval", "B", "g", 1], ["del_space", deleted], ["cur_cells", "h", F(0, 3), use],
+                                 ["cur_cells", "k", F(0, 4), "model"], ["new_space", "-", "C", []], ["cur_cells", "f", F(0, 5), use],
+                                 ["evalall"]]
+                    out.append(("current space %s set by %s, %s deleted, then %s" % (victim, how, deleted, use),
+                                [list(o) for o in ops]))
+    return out
+
+
 def run(ctx, out):
     stats = S.run_struct(ctx, out, "C13", CFG, H, 80, 1500, RULE, ops_range=(14, 28))
+    fam = session_family()
+    S.run_family(out, stats, fam, H, CFG, "session_family")
+    out.coverage["evaluations"] += len(fam)
+    out.coverage["rule"] += ("; the session's handle: cur_space set (mx.cur_space / parent.cur_space / by new_space) to "
+                             "random, mostly nested spaces in the random histories and API use through it (new_cells "
+                             "through cur_space(), mx.defcells); plus %d programs = (current space: the deleted space / a "
+                             "child / a grandchild / an unrelated space) x (how it was set) x (deletion at the top / in "
+                             "the middle) x (use afterwards)" % len(fam))
     if len([f for f in out.failures if not f.get("key")]) < 4:
         run_dynamic(ctx, out, stats)
+    n_held = held_items(ctx, out, stats)
+    out.coverage["evaluations"] += n_held
+    out.coverage["rule"] += ("; plus %d histories over ItemSpaces HELD by references (T.r = S[i], T.rc = S[i].Ch) with cached "
+                             "readers of their arguments, formula references, base references, cells, child space, and "
+                             "of the ItemSpace passed as an argument; every kind of discard (base cells created / redefined "
+                             "/ deleted, parameter formula and what it read, base reference, clear_items, del S[i], "
+                             "clear_all, deletion of the space), rebinding; no reader holds a value right after its handle "
+                             "died, and live = edits-only at the end" % n_held)
     out.coverage["evaluations"] += stats["dyn_scenarios"]
     out.coverage["input_distribution"] = dict(stats)
     out.coverage["rule"] += ("; plus dynamic copies: after each motif program of the ItemSpace world (several parametrised "
@@ -484,6 +735,9 @@ def run(ctx, out):
 
 def replay(ctx, payload, out):
     h = payload.get("history") or {}
+    if h.get("scenario") == "held-items":
+        check_held(h, out, collections.Counter())
+        return
     ops = h.get("ops") or []
     if any(o[0] in ("item", "evalstatic") or (o[0] == "eval" and isinstance(o[2], list)) for o in ops):
         # a scenario of the ItemSpace world: handles are taken before the last definition edit
